@@ -156,8 +156,8 @@ def std_validate(chk, cases, tier):
             continue   # plain text: trivially accepted by both; a 2% sample is still compiled
         if lit.startswith("{}") and lit.endswith("{:?}") and len(lit) > 8:
             continue   # the "second" context repeats the bare derivation between two fixed placeholders
-        if tier == "thorough" and len(c["chars"]) > 4 and vlib.seeded_pick(lit, 0, 32) != 0:
-            continue   # rustc cannot compile millions of probes: every string <= 4 plus a fixed 1/32 of the longer ones
+        if tier == "thorough" and len(c["chars"]) > 4 and vlib.seeded_pick(lit, 0, 96) != 0:
+            continue   # rustc cannot compile millions of probes: every string <= 4 plus a fixed 1/96 of the longer ones
         todo.append((lit, c))
     todo.sort(key=lambda t: t[0])
     h = hashlib.sha1()
@@ -176,7 +176,7 @@ def std_validate(chk, cases, tier):
         # the spec or the case set changed since the last validation: redo it (below)
         pass
     log(f"[C03] validating Std* against rustc on {len(todo)} literals")
-    par = 12 if tier == "quick" else 8           # concurrent rustc processes (one probe crate each)
+    par = 12 if tier == "quick" else 6           # concurrent rustc processes (one probe crate each)
     per = 9000 if tier == "quick" else 6000      # probes per crate (rustc stays below ~3 GB / ~2 GB)
     nshards = par * max(1, -(-len(todo) // (par * per)))
     shards = [todo[i::nshards] for i in range(nshards)]
